@@ -162,6 +162,9 @@ func runC12(c *fw.Ctx) {
 			}
 			permutations(n, func(order []int) bool {
 				for _, host := range hosts {
+					if c.Quick() && n >= 3 && (strings.Contains(host.name, "@inter1") || strings.Contains(host.name, "@inter2") || strings.Contains(host.name, "#1") || strings.Contains(host.name, "#2") || strings.Contains(host.name, "@method1") || strings.Contains(host.name, "@method2")) {
+						continue // quick tier: the position matrix of the hosts against all graphs over 2 types, the base positions against 3
+					}
 					if !c.Next() {
 						continue
 					}
@@ -435,6 +438,80 @@ func c12Hosts() []c12host {
 	}
 	holder := func(hb string) *doc.Node { return doc.N("TYPE", "@holder").WithBody("{\n  \"in\": " + indent(hb) + "\n}") }
 	heir := func() *doc.Node { return doc.N("TYPE", "@heir").WithBody("{ // {allOf: \"@holder\"}\n  \"z\": 1\n}") }
+	// allOf below a plain intermediate object (depth 2) and inside an array element
+	deep := func(hb string) *doc.Node {
+		return doc.N("TYPE", "@deep").WithBody("{\n  \"mid\": {\n    \"in\": " + strings.ReplaceAll(hb, "\n", "\n    ") + "\n  }\n}")
+	}
+	inArr := func(hb string) *doc.Node {
+		return doc.N("TYPE", "@arr").WithBody("{\n  \"list\": [\n    " + strings.ReplaceAll(hb, "\n", "\n    ") + "\n  ]\n}")
+	}
+	out = append(out,
+		c12host{name: "nested-depth2", build: func(nodes []*doc.Node, hb string, _ []string) []*doc.Node {
+			return append(nodes, deep(hb))
+		}, locate: func(cat *jsonx.V) *jsonx.V {
+			h := cat.Path("userTypes", "@deep", "schema", "content", "children")
+			if h == nil || len(h.A) != 1 {
+				return nil
+			}
+			m := h.A[0].Get("children")
+			if m == nil || len(m.A) != 1 {
+				return nil
+			}
+			return m.A[0]
+		}},
+		c12host{name: "nested-in-response-depth2", build: func(nodes []*doc.Node, hb string, _ []string) []*doc.Node {
+			b := "{\n  \"mid\": {\n    \"in\": " + strings.ReplaceAll(hb, "\n", "\n    ") + "\n  }\n}"
+			return append(nodes, doc.N("GET", "/deep").WithParen().WithKids(doc.N("200").WithBody(b)))
+		}, locate: func(cat *jsonx.V) *jsonx.V {
+			in := inter(cat, 0)
+			if in == nil {
+				return nil
+			}
+			r := in.Get("responses")
+			if r == nil || len(r.A) != 1 {
+				return nil
+			}
+			h := r.A[0].Path("body", "schema", "content", "children")
+			if h == nil || len(h.A) != 1 {
+				return nil
+			}
+			m := h.A[0].Get("children")
+			if m == nil || len(m.A) != 1 {
+				return nil
+			}
+			return m.A[0]
+		}},
+		c12host{name: "response-array-root", build: func(nodes []*doc.Node, hb string, _ []string) []*doc.Node {
+			return append(nodes, doc.N("GET", "/arr").WithParen().WithKids(doc.N("200").WithBody("[\n  "+strings.ReplaceAll(hb, "\n", "\n  ")+"\n]")))
+		}, locate: func(cat *jsonx.V) *jsonx.V {
+			in := inter(cat, 0)
+			if in == nil {
+				return nil
+			}
+			r := in.Get("responses")
+			if r == nil || len(r.A) != 1 {
+				return nil
+			}
+			h := r.A[0].Path("body", "schema", "content", "children")
+			if h == nil || len(h.A) != 1 {
+				return nil
+			}
+			return h.A[0]
+		}},
+		c12host{name: "nested-in-array", build: func(nodes []*doc.Node, hb string, _ []string) []*doc.Node {
+			return append(nodes, inArr(hb))
+		}, locate: func(cat *jsonx.V) *jsonx.V {
+			h := cat.Path("userTypes", "@arr", "schema", "content", "children")
+			if h == nil || len(h.A) != 1 {
+				return nil
+			}
+			m := h.A[0].Get("children")
+			if m == nil || len(m.A) != 1 {
+				return nil
+			}
+			return m.A[0]
+		}},
+	)
 	out = append(out,
 		c12host{name: "nested", build: func(nodes []*doc.Node, hb string, _ []string) []*doc.Node {
 			return append([]*doc.Node{nodes[0], holder(hb)}, nodes[1:]...)
